@@ -15,7 +15,6 @@ import (
 	"fmt"
 	"net/netip"
 	"os"
-	"runtime/pprof"
 	"sort"
 	"strings"
 	"time"
@@ -50,7 +49,7 @@ var cmPunchNames = []string{"PNone", "POne", "PAll"}
 var cmHsNames = []string{"HNone", "HStart", "HStartPeerVersion"}
 
 type cmRow struct {
-	Cert                                                   int
+	Cert                                               int
 	Dinv, Exh, Primary, In, Out, Pd, Dropi, Idle, Swap bool
 }
 
@@ -756,11 +755,6 @@ func cmFail(format string, args ...any) {
 }
 
 func genConnMgr(c *hx.Ctx) {
-	if pf := os.Getenv("CM_PROF"); pf != "" {
-		f, _ := os.Create(pf)
-		pprof.StartCPUProfile(f)
-		defer pprof.StopCPUProfile()
-	}
 	k := 3
 	if c.Tier == "thorough" {
 		k = 8
@@ -821,13 +815,15 @@ func genConnMgr(c *hx.Ctx) {
 			infeasible = append(infeasible, r.lit())
 			continue
 		}
-		entries = append(entries, "("+r.lit()+", "+first.lit()+")")
+		entries = append(entries, "E "+strings.TrimSuffix(strings.TrimPrefix(r.lit(), "(mkRow "), ")")+"  "+strings.TrimSuffix(strings.TrimPrefix(first.lit(), "(mkRes "), ")"))
 	}
 	fmt.Fprintf(&sb, "(* a check for a local index the hostmap does not hold: the decision, and whether every such check (one per\n   situation above) left the tunnel object, the hostmap, the timer and the sockets untouched *)\n"+
 		"Definition tab_unknown_decision : decision := %s.\nDefinition tab_unknown_inert : bool := %v.\n\n", cmDecNames[unknownDec], unknownInert)
-	fmt.Fprintf(&sb, "(* %d rows *)\nDefinition tab_decide : list (row * res) := [\n %s].\n\n", len(entries), strings.Join(entries, ";\n "))
-	fmt.Fprintf(&sb, "(* rows for which no situation exists: an exhausted counter is past the rekey threshold, which rules out swap eligibility *)\n"+
-		"Definition tab_infeasible : list row := [\n %s].\n\n", strings.Join(infeasible, ";\n "))
+	fmt.Fprintf(&sb, "(* %d rows. No situation exists for the other %d feature combinations: an exhausted counter is past the rekey\n   threshold, which rules out swap eligibility.\n"+
+		"   E cert disconnect_invalid exhausted primary in out pendingDeletion drop_inactive idle swapEligible\n"+
+		"     decision pendingDeletion' timer punch removed notify probe touch clear primary' *)\n"+
+		"Definition E c b1 b2 b3 b4 b5 b6 b7 b8 b9 d p t u r1 r2 r3 r4 r5 r6 : row * res :=\n  (mkRow c b1 b2 b3 b4 b5 b6 b7 b8 b9, mkRes d p t u r1 r2 r3 r4 r5 r6).\n"+
+		"Definition tab_decide : list (row * res) := [\n %s].\n\n", len(entries), len(infeasible), strings.Join(entries, ";\n "))
 
 	// shouldSwapPrimary
 	var sw []string
@@ -888,7 +884,7 @@ func cmOptN(zero bool, v int64) string {
 }
 
 func runConnMgr(c *hx.Ctx) {
-	cw := c.NewCaseWriter("From NV Require Import lib.ConnMgr_lib corr.ConnMgr_corr.", "ConnMgr_corr.case", "ConnMgr_corr.check_case", 400)
+	cw := c.NewCaseWriter("From NV Require Import lib.ConnMgr_lib model.ConnMgr corr.ConnMgr_corr.", "ConnMgr_corr.case", "ConnMgr_corr.check_case", 100)
 	m := cmMaterial(c)
 
 	// 1. boundary sweep: every row of every table, on a fresh concrete situation
@@ -968,7 +964,7 @@ func cmHistory(c *hx.Ctx, m *nebula.VerifCMMaterial, steps int) (string, string,
 	if c.Chance(0.3) {
 		peerAddrs[2] = netip.MustParseAddr("fd00:1::99")
 	}
-	nas := []time.Duration{3 * time.Minute, 8 * time.Minute, 2 * time.Hour, 2 * time.Hour}
+	nas := []time.Duration{6 * time.Minute, 25 * time.Minute, 2 * time.Hour, 2 * time.Hour}
 	idx := uint32(100 + c.Intn(1000))
 	for p := 0; p < 3; p++ {
 		for j := 0; j <= p; j++ {
@@ -981,7 +977,10 @@ func cmHistory(c *hx.Ctx, m *nebula.VerifCMMaterial, steps int) (string, string,
 				if !t.addr.Is4() {
 					ver = 2
 				}
-				ca := c.Intn(3)
+				ca := c.Intn(2)
+				if c.Chance(0.15) {
+					ca = 2
+				}
 				na := nas[c.Intn(4)]
 				if ca == 2 {
 					na = min(na, cmCALife[2])
@@ -994,7 +993,7 @@ func cmHistory(c *hx.Ctx, m *nebula.VerifCMMaterial, steps int) (string, string,
 			ctr := uint64(c.Intn(1000))
 			t.h = w.AddTunnel(nebula.VerifCMTunnel{VpnAddrs: []netip.Addr{t.addr}, LocalIndex: idx, RemoteIndex: idx + 7000, Remote: rem,
 				Remotes: []netip.AddrPort{rem, netip.AddrPortFrom(netip.AddrFrom4([4]byte{198, 18, 0, byte(len(tuns) + 1)}), 4242)},
-				Peer: t.pc, MyCert: m.LocalCert(t.myVer, t.myVariant, myNets), Counter: ctr, Register: true})
+				Peer:    t.pc, MyCert: m.LocalCert(t.myVer, t.myVariant, myNets), Counter: ctr, Register: true})
 			tuns = append(tuns, t)
 			d := map[string]any{"tunnel": len(tuns) - 1, "peer": p, "overlay_addr": t.addr.String(), "local_index": idx, "my_cert_version": t.myVer, "my_cert_variant": t.myVariant, "peer_cert": t.pc != nil}
 			if t.pc != nil {
@@ -1019,7 +1018,17 @@ func cmHistory(c *hx.Ctx, m *nebula.VerifCMMaterial, steps int) (string, string,
 	var stepDescs []any
 	removed, kinds := 0, map[string]bool{}
 	for sIdx := 0; sIdx < steps; sIdx++ {
+		anyKnown := false
+		for _, x := range tuns {
+			anyKnown = anyKnown || w.Pre(x.h).Known
+		}
+		if !anyKnown && sIdx > 0 && c.Chance(0.7) {
+			break // every tunnel is gone; a few more checks of dead tunnels at most
+		}
 		ti := c.Intn(len(tuns))
+		for try := 0; try < 3 && !w.Pre(tuns[ti].h).Known && c.Chance(0.8); try++ {
+			ti = c.Intn(len(tuns)) // mostly tunnels still in the hostmap
+		}
 		t := tuns[ti]
 		// environment changes before this check
 		var changes []string
@@ -1036,7 +1045,7 @@ func cmHistory(c *hx.Ctx, m *nebula.VerifCMMaterial, steps int) (string, string,
 			changes = append(changes, fmt.Sprintf("inactivity_timeout=%s", cfg.InactivityTimeout))
 		}
 		w.Reconfigure(cfg)
-		if c.Chance(0.06) && t.pc != nil {
+		if c.Chance(0.04) && t.pc != nil {
 			blocked[t.pc.Fingerprint] = !blocked[t.pc.Fingerprint]
 			setPool()
 			changes = append(changes, fmt.Sprintf("blocklist[tunnel %d]=%v", ti, blocked[t.pc.Fingerprint]))
@@ -1064,7 +1073,7 @@ func cmHistory(c *hx.Ctx, m *nebula.VerifCMMaterial, steps int) (string, string,
 		}
 		if c.Chance(0.08) {
 			v := uint64(nebula.VerifCMRehandshakeAfterMessages) + uint64(c.Intn(1000))
-			if c.Chance(0.35) {
+			if c.Chance(0.25) {
 				v = uint64(nebula.VerifCMRejectAfterMessages) + uint64(c.Intn(1000))
 			} else if c.Chance(0.3) {
 				v = uint64(c.Intn(1000))
@@ -1074,21 +1083,23 @@ func cmHistory(c *hx.Ctx, m *nebula.VerifCMMaterial, steps int) (string, string,
 		}
 		// clock
 		var dt time.Duration
-		switch c.Intn(10) {
-		case 0:
+		switch c.Intn(20) {
+		case 0, 1:
 			dt = 0
-		case 1:
-			dt = cfg.InactivityTimeout
 		case 2:
-			dt = cfg.InactivityTimeout/2 + time.Duration(c.Intn(1000))
+			dt = cfg.InactivityTimeout
 		case 3:
+			dt = cfg.InactivityTimeout/2 + time.Duration(c.Intn(1000))
+		case 4:
+			dt = cfg.InactivityTimeout - time.Duration(1+c.Intn(3))
+		case 5, 6:
 			dt = time.Duration(c.Intn(120)) * time.Second
 		default:
 			dt = time.Duration(c.Intn(10_000)) * time.Millisecond
 		}
 		now = now.Add(dt)
 		// traffic since the previous check
-		in, out := c.Chance(0.45), c.Chance(0.5)
+		in, out := c.Chance(0.6), c.Chance(0.5)
 		if in {
 			w.In(t.h)
 		}
@@ -1161,7 +1172,7 @@ func cmHistory(c *hx.Ctx, m *nebula.VerifCMMaterial, steps int) (string, string,
 			"in": in, "out": out, "cert": cmCertNames[cs], "disconnect_invalid": cfg.DisconnectInvalid, "drop_inactive": cfg.DropInactive,
 			"inactivity_timeout_ns": int64(cfg.InactivityTimeout), "counter": fmt.Sprint(ctr), "counter_class": ctrName,
 			"own_cert": map[string]bool{"loaded": lc, "same_signature": se, "peer_version_higher_and_held": up, "below_initiating_version": bi},
-			"before": map[string]any{"in_hostmap": pre.Known, "primary": pre.Primary, "in": pre.In, "out": pre.Out, "pending_deletion": pre.PendingDeletion, "last_used_zero": pre.LastUsedZero, "last_used_ns_after_start": int64(pre.LastUsed.Sub(start))},
+			"before":   map[string]any{"in_hostmap": pre.Known, "primary": pre.Primary, "in": pre.In, "out": pre.Out, "pending_deletion": pre.PendingDeletion, "last_used_zero": pre.LastUsedZero, "last_used_ns_after_start": int64(pre.LastUsed.Sub(start))},
 			"observed": map[string]any{"removed": pre.Known && !o.KnownAfter, "close_tunnel_packets": o.ClosePkts, "test_packets": o.TestPkts, "pending_deletion": o.PendingAfter,
 				"timer": cmTimerNames[timer], "primary_after": o.PrimaryAfter, "handshake": cmHsNames[o.Handshake]}})
 	}
